@@ -108,3 +108,18 @@ Proof.
   - apply of_int_correct. now apply in64_abs.
   - apply of_int_exact.
 Qed.
+
+(* math.fmod after the repair is the manual's: truncated remainder on two integers, C fmod otherwise *)
+Theorem math_fmod_spec x y : math_fmod x y = s_math_fmod x y.
+Proof. destruct x, y; reflexivity. Qed.
+
+(* ... whose integer result has the sign of the dividend and is smaller than the divisor *)
+Theorem math_fmod_int_props a b : b <> 0 ->
+  exists r, math_fmod (NInt a) (NInt b) = ROk (NInt r) /\ a = b * Z.quot a b + r /\ Z.abs r < Z.abs b /\ 0 <= r * a.
+Proof.
+  intros NZ. exists (Z.rem a b). cbn. destruct (Z.eqb_spec b 0); [contradiction|].
+  repeat split.
+  - apply Z.quot_rem'.
+  - apply Z.rem_bound_abs. exact NZ.
+  - apply Z.rem_sign_mul. exact NZ.
+Qed.
